@@ -197,6 +197,9 @@ func (c *Cmt) produceBlock(args *BlockArgs) bool {
 			continue
 		}
 		w.checkHonestProposalShape(pn, txs, pn.lastFaulted)
+		if args.MultiSched > 0 && !pn.lastFaulted && len(spec.Faults) == 0 {
+			w.multiSchedule(pn, h, t, pv.Address, eci, txs, args.MultiSched)
+		}
 		if spec.Kind == "crash-proposer" {
 			pn.crash("proposer crashed after PrepareProposal")
 			pn.DownFor = 1
@@ -336,6 +339,9 @@ func (c *Cmt) produceBlock(args *BlockArgs) bool {
 		c.compareExecution(n, b, resp)
 		if args.Reexec == n.ID+1 {
 			w.reexecute(n, b)
+		}
+		if args.ShadowDiff == n.ID+1 {
+			w.shadowDiff(n, b, resp)
 		}
 		if hasCrash && cs.Point == "post-finalize" {
 			n.crash("crash between FinalizeBlock and Commit")
